@@ -10,7 +10,7 @@
 From Coq Require Import NArith ZArith List Lia.
 Import ListNotations.
 From Mds Require Import Mdiff.Decimal Mdiff.ReaderModel Mdiff.FormatSpec Mdiff.ApplySpec Mdiff.FormatInst
-  Mdiff.ReaderNormalProofs Mdiff.ApplyNormalProofs Mdiff.ReaderUnifiedProofs Mdiff.ApplyUnifiedProofs Mdiff.ApplyContextProofs Mdiff.ReaderGitProofs
+  Mdiff.ReaderNormalProofs Mdiff.ApplyNormalProofs Mdiff.ReaderUnifiedProofs Mdiff.ApplyUnifiedProofs Mdiff.ApplyContextProofs Mdiff.ReaderGitProofs Mdiff.FormatPatchOk
   Mdiff.FormatRefuted.
 Local Open Scope Z_scope.
 
@@ -256,4 +256,13 @@ Example C14_git_wrappers_ex :
                  ++ split_lines (x_unified repaired (Some (mkFileInfo [122]%N [122]%N [] [])) f6_cs)))
   = ROk [mkPatch (Some (mkFileInfo [120]%N [121]%N [] [])) (unified_normalise f5_cs);
          mkPatch (Some (mkFileInfo [122]%N [122]%N [] [])) f6_cs].
+Proof. vm_compute. reflexivity. Qed.
+
+(* the hypothesis [patch_ok] is decidable: the driver evaluates [patch_okb] on the chunks the
+   implementation computed for every generated diff (New, and AddContext(n).Unify()) *)
+Theorem C14_patch_okb_sound : forall (L R : list line) (cs : list (chunk line)),
+  patch_okb L R cs = true -> patch_ok L R cs.
+Proof. exact patch_okb_sound. Qed.
+Print Assumptions C14_patch_okb_sound.
+Example C14_patch_okb_ex : patch_okb ex_L ex_R ex_cs = true.
 Proof. vm_compute. reflexivity. Qed.
